@@ -88,6 +88,39 @@ func diskParts(root string) map[uint64]bool {
 	return out
 }
 
+// settledDisk polls (bounded) until the part directories equal keep: the engine removes the files of a replaced
+// part in a goroutine of its own, so the removal may trail Close by a moment.
+func settledDisk(dir string, keep map[uint64]bool) (left []uint64, missing []uint64) {
+	for i := 0; i < 400; i++ {
+		left, missing = left[:0], missing[:0]
+		disk := diskParts(dir)
+		for id := range disk {
+			if !keep[id] {
+				left = append(left, id)
+			}
+		}
+		for id := range keep {
+			if !disk[id] {
+				missing = append(missing, id)
+			}
+		}
+		if len(left) == 0 || len(missing) > 0 {
+			break
+		}
+		time.Sleep(5 * time.Millisecond)
+	}
+	sort.Slice(left, func(a, b int) bool { return left[a] < left[b] })
+	return left, missing
+}
+
+// restartCleans reopens the table (startup removes parts no snapshot lists) and reports what is still left.
+func restartCleans(dir string, fileSystem fs.FileSystem, keep map[uint64]bool) []uint64 {
+	t2, _ := initTSTable(fileSystem, dir, common.Position{}, logger.GetLogger("verif"), option{flushTimeout: 0, mergePolicy: newDefaultMergePolicyForTesting(), protector: protector.Nop{}}, nil)
+	t2.Close()
+	left, _ := settledDisk(dir, keep)
+	return left
+}
+
 func c05Step(s *verifh.Sink, base string, fileSystem fs.FileSystem, uid *int64) {
 	segs := []int64{0, 1_000_000_000, 2_000_000_000, 3_000_000_000}
 	for c := 0; c < verifh.Pick(150, 4000); c++ {
@@ -226,17 +259,14 @@ func c05Step(s *verifh.Sink, base string, fileSystem fs.FileSystem, uid *int64) 
 		st.close()
 		if ok && keep != nil {
 			// after close nothing reads any more: replaced parts must be gone, the snapshot's parts present
-			disk := diskParts(dir)
-			for id := range disk {
-				if !keep[id] {
-					bad("replaced-part-left-on-disk-after-close", map[string]any{"part": id})
-					break
-				}
+			left, missing := settledDisk(dir, keep)
+			if len(missing) > 0 {
+				bad("live-part-deleted", map[string]any{"parts": missing})
 			}
-			for id := range keep {
-				if !disk[id] {
-					bad("live-part-deleted", map[string]any{"part": id})
-					break
+			if len(left) > 0 { // no time bound in the property: a restart must clean them up
+				s.Count("c05.measure.step.replaced_parts_still_on_disk_2s_after_close", 1)
+				if left = restartCleans(dir, fileSystem, keep); len(left) > 0 {
+					bad("replaced-part-survives-restart", map[string]any{"parts": left})
 				}
 			}
 		}
@@ -261,7 +291,7 @@ func c05Live(s *verifh.Sink, base string, fileSystem fs.FileSystem, uid *int64) 
 		}
 		sids := []common.SeriesID{1, 2, 3}
 		var mu sync.Mutex
-		var acked []vrow              // rows of acknowledged batches
+		var acked []vrow               // rows of acknowledged batches
 		batchRows := map[int][]int64{} // batch -> uids (registered BEFORE the write starts)
 		var stop atomic.Bool
 		var scans, during, pinnedStates atomic.Int64
@@ -437,20 +467,14 @@ func c05Live(s *verifh.Sink, base string, fileSystem fs.FileSystem, uid *int64) 
 		}
 		tst.Close()
 		if firstBad.Load() == nil && stable >= 20 {
-			disk := diskParts(dir)
-			var left []uint64
-			for id := range disk {
-				if !keep[id] {
-					left = append(left, id)
-				}
+			left, missing := settledDisk(dir, keep)
+			if len(missing) > 0 {
+				s.Violation("c05:measure:live:live-part-deleted", map[string]any{"case": c, "parts": missing})
 			}
-			sort.Slice(left, func(a, b int) bool { return left[a] < left[b] })
 			if len(left) > 0 {
-				s.Violation("c05:measure:live:replaced-part-left-on-disk-after-close", map[string]any{"case": c, "parts": left})
-			}
-			for id := range keep {
-				if !disk[id] {
-					s.Violation("c05:measure:live:live-part-deleted", map[string]any{"case": c, "part": id})
+				s.Count("c05.measure.live.replaced_parts_still_on_disk_2s_after_close", 1)
+				if left = restartCleans(dir, fileSystem, keep); len(left) > 0 {
+					s.Violation("c05:measure:live:replaced-part-survives-restart", map[string]any{"case": c, "parts": left})
 				}
 			}
 		}
